@@ -46,6 +46,7 @@ type proposalView struct {
 }
 
 type mProposal struct {
+	ineligible map[string]string // administrators that were unavailable (status) throughout the block that created the proposal
 	id        string
 	votes     map[string]string // accepted votes: voter address -> approve|reject
 	order     []string
@@ -446,7 +447,16 @@ func afterBlockGov(s *scn, h uint64, txs []*pb.BxhTransaction, metas []*txMeta, 
 	// ---- C15: votes and proposals
 	for _, id := range s.proposals {
 		if _, ok := gm.proposals[id]; !ok {
-			gm.proposals[id] = &mProposal{id: id, votes: map[string]string{}, createdAt: h}
+			mp := &mProposal{id: id, votes: map[string]string{}, createdAt: h, ineligible: map[string]string{}}
+			// "administrators who were eligible when it was created": an administrator whose role was frozen, forbidden,
+			// activating or logouting before and after the creating block was not
+			for i := 0; i < s.cfg.World.Admins; i++ {
+				a := s.cfg.World.adminKey(i).Addr.String()
+				if x, y := prevSt["role:"+a], curSt["role:"+a]; x == y && (x == "frozen" || x == "forbidden" || x == "activating" || x == "logouting") {
+					mp.ineligible[a] = x
+				}
+			}
+			gm.proposals[id] = mp
 			gm.open = append(gm.open, id)
 		}
 	}
@@ -495,6 +505,9 @@ func afterBlockGov(s *scn, h uint64, txs []*pb.BxhTransaction, metas []*txMeta, 
 		if mp.concluded != "" && mp.endBlock < h {
 			s.vio("C15", "vote-on-finished-proposal-accepted", mp.concluded, "block %d tx %d: vote on proposal %s accepted although it was %s in block %d", h, i, mt.target, mp.concluded, mp.endBlock)
 		}
+		if st, bad := mp.ineligible[voter]; bad && mp.createdAt < h {
+			s.vio("C15", "vote-by-admin-not-eligible-at-creation", st, "block %d tx %d: a vote on proposal %s by administrator %s was accepted although its role was %s when the proposal was created in block %d", h, i, mt.target, voter, st, mp.createdAt)
+		}
 		if _, dup := mp.votes[voter]; dup {
 			s.vio("C15", "second-vote-accepted", "", "block %d tx %d: a second vote of %s on proposal %s was accepted", h, i, voter, mt.target)
 		}
@@ -537,6 +550,13 @@ func afterBlockGov(s *scn, h uint64, txs []*pb.BxhTransaction, metas []*txMeta, 
 			}
 		}
 		s.logf("  proposal %s %s/%s status=%s approve=%d against=%d initial=%d available=%d end=%q", id[len(id)-8:], pv.Typ, pv.EventType, pv.Status, pv.ApproveNum, pv.AgainstNum, pv.InitialElectorateNum, pv.AvailableElectorateNum, pv.EndReason)
+		if mp.createdAt == h && !s.inSetup {
+			for _, e := range pv.ElectorateList {
+				if st, bad := mp.ineligible[e.ID]; bad {
+					s.vio("C15", "electorate-lists-admin-not-eligible-at-creation", st, "proposal %s, created in block %d, lists administrator %s among its electors although its role was %s throughout that block", id, h, e.ID, st)
+				}
+			}
+		}
 		if pv.Status == "proposed" && mp.createdAt != h {
 			// "evaluated against the current number of available electors": the recorded number must be the number of
 			// electors of this proposal whose role is available now (skipped while any of them is in a transitional status)
